@@ -14,18 +14,19 @@ Definition dec_variant (v : val) : variant :=
   {| v_lock := as_bool (nthv 0 v); v_recheck := as_bool (nthv 1 v);
      v_push := as_bool (nthv 2 v); v_atomic := as_bool (nthv 3 v) |}.
 
-(* case = (variant ncons maxq gopon pkts stoppers sched) *)
+(* case = (variant ncons maxq gopon pkts stoppers sched panic_at) *)
 Record lcase := {
   l_var : variant; l_n : nat; l_maxq : nat; l_gop : bool;
-  l_pkts : list pkt; l_stop : list bool; l_sched : list tid }.
+  l_pkts : list pkt; l_stop : list bool; l_sched : list tid; l_panic : list nat }.
 Definition dec_lcase (v : val) : lcase :=
   {| l_var := dec_variant (nthv 0 v); l_n := as_nat (nthv 1 v); l_maxq := as_nat (nthv 2 v);
      l_gop := as_bool (nthv 3 v); l_pkts := map dec_pkt (as_list (nthv 4 v));
-     l_stop := map as_bool (as_list (nthv 5 v)); l_sched := map dec_tid (as_list (nthv 6 v)) |}.
+     l_stop := map as_bool (as_list (nthv 5 v)); l_sched := map dec_tid (as_list (nthv 6 v));
+     l_panic := map as_nat (as_list (nthv 7 v)) |}.
 
 Definition lstate := st rcache.
 Definition lrun (c : lcase) : lstate :=
-  run (l_var c) (l_maxq c) rcache (rc_empty (l_gop c)) rc_add rc_snap (l_n c) (l_sched c)
+  run (l_var c) (l_maxq c) rcache (rc_empty (l_gop c)) rc_add rc_snap (l_n c) (fun i => nth i (l_panic c) O) (l_sched c)
       (init rcache (rc_empty (l_gop c)) (l_pkts c) (fun i => nth i (l_stop c) false)).
 
 Definition cpc_code (p : cpc) : Z :=
